@@ -81,13 +81,18 @@ static void use_static_cctx(const char* what, size_t est, int streaming, int lev
 static void run_cside(long idx)
 {
     vrng r = vr_make(V.seed, 114, (uint64_t)idx);
-    int const kind = (int)vr_u(&r, 6);
+    int kind = (int)vr_u(&r, 6);
     size_t n = TIERS[vr_u(&r, NTIERS)]; if (vr_chance(&r, 1, 4)) n = vr_u64(&r, g_srcCap + 1);
     char desc[400];
+    /* the first cases enumerate the level grid exhaustively: every (L, l <= L) pair, one-shot and streaming, on an input larger than every size tier */
+    int gridL = 0, gridl = 0, isGrid = 0;
+    {   int const lo = -3, hi = 19; long const npairs = (long)(hi - lo + 1) * (hi - lo + 2) / 2;
+        if (idx < 2 * npairs) { long q = idx % npairs; int L = lo; while (q >= (L - lo + 1)) { q -= (L - lo + 1); L++; } gridL = L; gridl = lo + (int)q; kind = (int)(idx / npairs); isGrid = 1; n = 1500000 + (size_t)(idx % 7); } }
     switch (kind) {
     case 0: case 1: {   /* levels L >= l, one-shot (0) / streaming (1) */
         int const maxL = V.thorough ? 22 : 19;
-        int const L = (int)vr_range(&r, -7, maxL); int l = (int)vr_range(&r, -7, L); if (vr_chance(&r, 1, 3)) l = L;
+        int L = (int)vr_range(&r, -7, maxL); int l = (int)vr_range(&r, -7, L); if (vr_chance(&r, 1, 3)) l = L;
+        if (isGrid) { L = gridL; l = gridl; }
         int const useL = (L == 0) ? ZSTD_defaultCLevel() : L; int const usel = (l == 0) ? ZSTD_defaultCLevel() : l;
         if (usel > useL) break;                       /* level 0 is the default level (3): normalised */
         snprintf(desc, sizeof desc, "L=%d l=%d", L, l);
